@@ -387,7 +387,7 @@ func Run(r *core.Run) {
 
 	var progs []program
 	if r.Thorough() {
-		progs = generate(r, "LoweringProgs.thorough.cfg", 8, 2, 2, r.Seed)
+		progs = generate(r, "LoweringProgs.thorough.cfg", 8, 2, 3, r.Seed)
 	} else {
 		progs = generate(r, "LoweringProgs.quick.cfg", 6, 1, 1, r.Seed)
 	}
@@ -591,7 +591,7 @@ func Run(r *core.Run) {
 	sort.Strings(fams)
 	r.Set("constructs", len(fams))
 	r.Set("targets", len(targets))
-	r.Set("rule", "case = one program exported by TLC from spec/LoweringProgs.tla (construct x position, thorough: x one nested construct) run under every environment of its probes for the original and for every distinct api.Transform output over 9 targets x single-feature supported overrides x minify off/on; non-trivial = some output differs from the esnext output of the same minify setting (something was lowered); a violation needs native V8 on the original and the lowered output to disagree while the spec (where it predicts) agrees with native")
+	r.Set("rule", "case = one program exported by TLC from spec/LoweringProgs.tla (construct x position incl. the object-model families [definitions over base-class shapes, copies over adversarial sources, error timing, thenables]; quick: label-first covering sample of the positions, thorough: all positions x every 3rd nesting with one more construct) run under every environment of its probes for the original and for every distinct api.Transform output over 9 targets x single-feature supported overrides x minify off/on; non-trivial = some output differs from the esnext output of the same minify setting (something was lowered); a violation needs native V8 on the original and the lowered output to disagree while the spec (where it predicts) agrees with native")
 }
 
 func init() { core.Register("C05", Run) }
